@@ -2,7 +2,7 @@
    Part C: the generated command table (finite obligations by vm_compute, lifted to
    every row with forallb_forall) and the guards applied through the table. *)
 From Coq Require Import String List NArith Bool.
-From PV Require Import C04.Model C04.Generated.
+From PV Require Import C04.Model C04.Generated C04.Lookup.
 Import ListNotations.
 Open Scope string_scope.
 
@@ -254,8 +254,11 @@ Lemma guard_sources_as_transcribed :
   /\ src_ensureOutputDirOrFileAvailable = expected_src_ensureOutputDirOrFileAvailable.
 Proof. repeat split; vm_compute; reflexivity. Qed.
 
+(* root.go binds --force (default false) to the global the guards read, and nothing else writes it *)
+Lemma force_flag_binding : force_flag_ok = true.
+Proof. reflexivity. Qed.
+
 (* the extracted lookup (Lookup.v) answers with the table's rows *)
-From PV Require Import C04.Lookup.
 
 Lemma lookup_is_table : forall i d f j force sd sf sj,
   decide_idx i d f j force sd sf sj =
